@@ -18,6 +18,12 @@
 (*   tamper  set of fields altered AFTER signing:                          *)
 (*           "ts" (secret re-encrypted with another, still tolerated       *)
 (*           time), "method", "path", "query", "body", "sig"               *)
+(*   via     how the request (and its body) reaches the server:           *)
+(*           "sized"   recorder, Content-Length known                       *)
+(*           "unknown" recorder, body present but ContentLength = -1        *)
+(*           "wire"    a real connection; a non-empty body is sent with    *)
+(*                     Transfer-Encoding: chunked (length unknown)         *)
+(*           The verdict must not depend on it.                            *)
 (* The statement: the handler runs iff the header decrypts under a         *)
 (* configured key, the timestamp is within the tolerance and the HMAC      *)
 (* matches; altering any signed field yields 403.                          *)
@@ -34,6 +40,7 @@ Fps     == {"known", "known2", "unknown", "missing"}
 Secrets == {"ok", "garbled", "crossed"}
 Offsets == {"now", "-tol", "-tol-1", "+tol", "+tol+1", "far", "garbage"}
 Fields  == {"ts", "method", "path", "query", "body", "sig"}
+Vias    == {"sized", "unknown", "wire"}
 
 Within(ts) == ts \in {"now", "-tol", "+tol"}
 
@@ -51,10 +58,10 @@ Init == base = NoBase /\ picked = FALSE /\ out = [op |-> "init"]
 
 PickBase ==
   /\ base = NoBase
-  /\ \E m \in Methods, fp \in Fps, s \in Secrets, hasbody \in BOOLEAN :
-        /\ (hasbody => m \in {"POST", "PUT"})
+  /\ \E m \in Methods, fp \in Fps, s \in Secrets, hasbody \in BOOLEAN, via \in Vias :
+        /\ (hasbody => m \in {"POST", "PUT", "DELETE"})
         /\ (fp = "missing" => s = "ok")
-        /\ base' = [method |-> m, fp |-> fp, secret |-> s, body |-> hasbody]
+        /\ base' = [method |-> m, fp |-> fp, secret |-> s, body |-> hasbody, via |-> via]
   /\ out' = [op |-> "base"]
   /\ UNCHANGED picked
 
@@ -69,7 +76,7 @@ PickRest ==
         /\ Cardinality(tm) <= MaxTamper
         /\ (base.fp = "missing" => tm \subseteq {"method", "path", "query", "body"})
         /\ Pick([method |-> base.method, fp |-> base.fp, secret |-> base.secret, ts |-> ts,
-                 body |-> base.body, tamper |-> tm])
+                 body |-> base.body, via |-> base.via, tamper |-> tm])
 
 Next == PickBase \/ PickRest
 
@@ -81,5 +88,9 @@ AnyTamperDenied == picked /\ out.req.tamper # {} => out.expect = "deny"
 HonestPasses ==
   picked /\ out.req.tamper = {} /\ out.req.fp \in {"known", "known2"} /\ out.req.secret = "ok"
          /\ out.req.ts \in {"now", "-tol", "+tol"} => out.expect = "pass"
+\* the way the body is delivered (known length, unknown length, chunked on a real connection)
+\* never enters the verdict
+TransportIrrelevant ==
+  picked => \A v \in Vias : Pass([out.req EXCEPT !.via = v]) = (out.expect = "pass")
 OutsideToleranceDenied == picked /\ out.req.ts \in {"-tol-1", "+tol+1", "far", "garbage"} => out.expect = "deny"
 =============================================================================
